@@ -369,6 +369,53 @@ def Circ.compileLayersOnly (c : Circ) : Except Err Circ :=
   | .error e => .error e
   | .ok (Ls, _, _) => .ok { c with layers := Ls }
 
+/-! ## `compile()` as a state transformer: the object after the call and whether the call raised
+
+`Circ.compile` above returns either the compiled circuit or the error. Python mutates the object while it goes, so a call
+that raises still leaves its traces: gates and layers visited before the failing gate are compiled. Since the repair of the
+refused-compile defect the maps of the failing layer and of the circuit are reset to `None` first and stored only at the
+end (`self.forward_map = None … self.forward_map = forward_map`). -/
+def compileGatesSt (N : Nat) : List Gate → CMap → CMap → List Gate × Except Err (CMap × CMap)
+  | [], F, B => ([], .ok (F, B))
+  | g :: gs, F, B =>
+    match g.compile with
+    | .error e => (g :: gs, .error e)                 -- `gate.compile()` raises before changing the gate
+    | .ok g' =>
+      match qMask g.qubits N, g'.fmap, g'.bmap with
+      | .ok m, some f, some b =>
+        let r := compileGatesSt N gs (embed F f m) (embed B b m)
+        (g' :: r.1, r.2)
+      | .error e, _, _ => (g' :: gs, .error e)
+      | _, _, _ => (g' :: gs, .error .assertion)
+def Layer.compileSt (N : Nat) : Layer → Layer × Except Err Unit
+  | .gates gs _ _ =>
+    match compileGatesSt N gs (idMap N) (idMap N) with
+    | (gs', .ok (F, B)) => (.gates gs' (some F) (some B), .ok ())
+    | (gs', .error e) => (.gates gs' none none, .error e)
+  | L => (L, .ok ())
+def compileLayersSt (N : Nat) : List Layer → CMap → CMap → List Layer × Except Err (CMap × CMap)
+  | [], F, B => ([], .ok (F, B))
+  | L :: Ls, F, B =>
+    match L.compileSt N with
+    | (L', .error e) => (L' :: Ls, .error e)
+    | (L', .ok ()) =>
+      match L' with
+      | .gates _ (some f) (some b) =>
+        let r := compileLayersSt N Ls (compose F f) (compose b B)
+        (L' :: r.1, r.2)
+      | _ =>
+        let r := compileLayersSt N Ls F B
+        (L' :: r.1, r.2)
+/-- `CliffordCircuit.compile()` / `Circuit.compile()`: the circuit after the call, and the outcome of the call -/
+def Circ.compileSt (c : Circ) : Circ × Except Err Unit :=
+  match compileLayersSt c.N c.layers (idMap c.N) (idMap c.N) with
+  | (Ls, .ok (F, B)) =>
+    if c.unitary then ({ c with layers := Ls, fmap := some F, bmap := some B }, .ok ())
+    else ({ c with layers := Ls }, .ok ())
+  | (Ls, .error e) =>
+    if c.unitary then ({ c with layers := Ls, fmap := none, bmap := none }, .error e)
+    else ({ c with layers := Ls }, .error e)
+
 /-! ## random-circuit constructors: `brickwall_rcc`, `onsite_rcc`, `global_rcc` (gates without generator or map) -/
 /-- `for l in range(depth): for i in range(l % 2, N, 2): circ.gate(i, (i+1) % N)` -/
 def brickwallPairs (N depth : Nat) : List (List Nat) :=
